@@ -106,8 +106,8 @@ def correspondence(ctx, model_ok):
               'error kind, plus Python validity verdict vs validb); fix_gate/forbid_wire argument checks on random '
               'calls; non-trivial = at least one gate; distinct = hash of the case')
     cases = list(sc.CORPUS) + systematic_cases()
-    n_random = ctx.n(400, 3000)
-    big = ctx.n(20, 150)
+    n_random = ctx.n(280, 3000)
+    big = ctx.n(14, 150)
     while len(cases) < len(sc.CORPUS) + 144 + n_random:
         c = sc.random_case(ctx.rng)
         sh = sc.shape_of(c)
